@@ -4,7 +4,7 @@ From ZV.C03 Require Import Model ProofsMem ProofsMixed ProofsZip ProofsSimple.
 From ZV.C03 Require Import ProofsSimpleGet ModelStore ProofsStore ModelZero ProofsZero ModelPlain ProofsPlainFs ProofsPlain.
 From ZV.C03 Require Import ModelWrap ProofsWrap ModelCached ProofsCached ModelDictZip ProofsDictZip ModelCases ProofsStack.
 From Coq Require Import Permutation.
-From ZV.C03 Require Import ModelBatch ProofsBatch ModelNltb ProofsNltb ModelFromData ProofsFromData.
+From ZV.C03 Require Import ModelBatch ProofsBatch ModelNltb ProofsNltb ModelFromData ProofsFromData ModelZeroFinish ProofsZeroFinish.
 Open Scope N_scope.
 
 (* MemoryBlobStore: for EVERY history of put/put_batch/remove/get+contains+size/len issuing fewer than 2^32-1 ids,
@@ -607,3 +607,15 @@ Check mem_from_data_ids_fresh :
   forall m st, NoDup (keys m) -> mem_from_data m = Some st ->
     forall id d, alookup id m = Some d -> id < mnext st.
 Print Assumptions mem_from_data_ids_fresh.
+
+(* ZeroLengthBlobStore::finish(n) as the start of a history: every history in the store's domain (empty records, no removal of a
+   live record) that keeps the count within 2^32 is answered like the property's machine in which ids 0..n-1 hold the empty record
+   and the next id is n *)
+Theorem zero_finish_history_refines_spec :
+  forall n ops, zero_ok n ops -> n + xputs ops <= W32 ->
+    st_run zero_ops (zero_finish n) ops = spec_xrun (spec_zero_finish n) ops.
+Proof. exact zero_finish_history_proof. Qed.
+Check zero_finish_history_refines_spec :
+  forall n ops, zero_ok n ops -> n + xputs ops <= W32 ->
+    st_run zero_ops (zero_finish n) ops = spec_xrun (spec_zero_finish n) ops.
+Print Assumptions zero_finish_history_refines_spec.
